@@ -283,5 +283,16 @@ Definition excerpt : graph :=
 (* ---------- statistics printed by props/C20.v ---------- *)
 Definition count_acq (g : graph) : N :=
   N.of_nat (List.length (flat_map (fun f => filter (fun e => match e with Acq _ _ _ => true | _ => false end) (f_body f)) g)).
+(* (held shared lock, acquired shared lock) pairs the checker compares, and functions with at least one *)
+Definition is_ranked (l : lock) : bool := match rank l with Some _ => true | None => false end.
+Fixpoint pairs_scan (s : summ) (held : list lock) (es : list event) : nat :=
+  match es with
+  | [] => 0%nat
+  | e :: t => (List.length (filter is_ranked held) * List.length (filter is_ranked (ev_locks s e)) + pairs_scan s (upd held e) t)%nat
+  end.
+Definition count_pairs (g : graph) : N * N :=
+  let s := summaries g in
+  let per := map (fun f => pairs_scan s [] (f_body f)) g in
+  (N.of_nat (fold_left Nat.add per 0%nat), N.of_nat (List.length (filter (fun n => negb (Nat.eqb n 0)) per))).
 Definition count_edges (g : graph) : N :=
   N.of_nat (List.length (flat_map (fun f => flat_map (fun e => match e with Call _ cs => cs | _ => [] end) (f_body f)) g)).
